@@ -286,8 +286,8 @@ def run(ctx):
         rule="histories of 1-2 runner instances (+ a final fresh one) over end kinds (shutdown "
              "from an outside thread / thread payload, SIGINT, failing payload per flavour) x "
              "accept thread x population x shutdown instant x concurrent accept of another "
-             "instance; every schedule within the deviation bound; non-trivial = more than one "
-             "schedule executed",
+             "instance; every schedule within the deviation bound; non-trivial = a schedule with a deviation"
+             " (all explored schedules are distinct)",
         bounds={"deviation_bound": bound, "granularity": "synchronisation operations",
                 "shutdown_bound_s": "accept_delay + cleanup + 1 (virtual seconds)"},
         assumptions=["shutdown() is called from threads other than the runtime's loop threads; "
